@@ -336,7 +336,7 @@ fn render_report(
 fn first_line(s: &str) -> String {
     // messages embed pretty-printed types over several lines: flatten whitespace
     let flat: Vec<&str> = s.split_whitespace().collect();
-    flat.join(" ").chars().take(220).collect()
+    flat.join(" ").chars().take(3000).collect()
 }
 
 /// Strip ANSI colour sequences.
